@@ -42,17 +42,26 @@ pub(crate) fn range_with_prefix<'a>(
         None => namespace.to_vec(),
     };
     let end = match end {
-        Some(e) => concat(namespace, e),
+        Some(e) => Some(concat(namespace, e)),
+        // an empty namespace has no upper bound
+        None if namespace.is_empty() => None,
         // end is updating last byte by one
-        None => namespace_upper_bound(namespace),
+        None => Some(namespace_upper_bound(namespace)),
     };
 
     // get iterator from storage
-    let base_iterator = storage.range(Some(&start), Some(&end), order);
+    let base_iterator = storage.range(Some(&start), end.as_deref(), order);
 
     // make a copy for the closure to handle lifetimes safely
     let prefix = namespace.to_vec();
-    let mapped = base_iterator.map(move |(k, v)| (trim(&prefix, &k), v));
+    let mapped = base_iterator
+        // when the upper bound carries over into an earlier byte, keys shorter than
+        // the namespace can lie inside the bounds without belonging to the namespace
+        .filter({
+            let prefix = prefix.clone();
+            move |(k, _)| k.starts_with(&prefix)
+        })
+        .map(move |(k, v)| (trim(&prefix, &k), v));
     Box::new(mapped)
 }
 
